@@ -86,6 +86,8 @@ func newRulesRunner(ctx *RunContext, buildContext *build.Context, state *engineS
 		runnerState = newRunnerState(state)
 	} else {
 		runnerState.Reset()
+		// The state could be created before the most recent Load() call.
+		state.env.UpdateEvalEnv(runnerState.evalEnv)
 	}
 
 	importer := newGoImporter(state, goImporterConfig{
